@@ -1,6 +1,10 @@
 package yqlib
 
-import yaml "gopkg.in/yaml.v3"
+import (
+	"container/list"
+
+	yaml "gopkg.in/yaml.v3"
+)
 
 // C13 — aliases and merge keys read as the YAML specification resolves them.
 //
@@ -23,6 +27,10 @@ type c13Doc struct {
 var c13MergeNames = []string{"alias", "list-one", "list-a-b", "list-b-a"}
 var c13PosNames = []string{"merge-first", "merge-middle", "merge-last"}
 
+// c13ExplicitAlias: when set, the second explicit value of H is an alias (*x) to an anchored scalar instead of a plain
+// scalar, so that explode also has to resolve values that override merged keys.
+var c13ExplicitAlias bool
+
 func c13Build(ka1, ka2, kb1, kb2, e1, e2 string, mergeKind, pos int) *yaml.Node {
 	a := vMap(vStr(ka1), vInt("1"), vStr(ka2), vInt("2"))
 	a.Anchor = "a"
@@ -43,7 +51,13 @@ func c13Build(ka1, ka2, kb1, kb2, e1, e2 string, mergeKind, pos int) *yaml.Node 
 	}
 	mk := &yaml.Node{Kind: yaml.ScalarNode, Tag: "!!merge", Value: "<<"}
 	h := vMap()
-	entries := [][2]*yaml.Node{{vStr(e1), vInt("5")}, {vStr(e2), vInt("6")}}
+	xAnch := vInt("6")
+	xAnch.Anchor = "x"
+	var e2val *yaml.Node = vInt("6")
+	if c13ExplicitAlias {
+		e2val = &yaml.Node{Kind: yaml.AliasNode, Value: "x", Alias: xAnch}
+	}
+	entries := [][2]*yaml.Node{{vStr(e1), vInt("5")}, {vStr(e2), e2val}}
 	for i := 0; i <= 2; i++ {
 		if i == pos {
 			h.Content = append(h.Content, mk, x)
@@ -51,6 +65,10 @@ func c13Build(ka1, ka2, kb1, kb2, e1, e2 string, mergeKind, pos int) *yaml.Node 
 		if i < 2 {
 			h.Content = append(h.Content, entries[i][0], entries[i][1])
 		}
+	}
+	if c13ExplicitAlias {
+		// the anchor has to precede its alias in document order (YAML forbids forward references)
+		return vMap(vStr("X"), xAnch, vStr("A"), a, vStr("B"), b, vStr("H"), h, vStr("S"), aliasA())
 	}
 	return vMap(vStr("A"), a, vStr("B"), b, vStr("H"), h, vStr("S"), aliasA())
 }
@@ -146,7 +164,19 @@ func c13Read(route int, root *yaml.Node, q string) (string, bool) {
 	if res.Len() > 1 {
 		return "MULTIPLE " + vDumpList(res), true
 	}
-	return res.Front().Value.(*CandidateNode).Value, true
+	r := res.Front().Value.(*CandidateNode)
+	if r.Kind == AliasNode {
+		// the value read is itself an alias: JSON output resolves it (the printer explodes every result first)
+		exp := ExpressionNode{Operation: &Operation{OperationType: explodeOpType}}
+		l := list.New()
+		l.PushBack(r)
+		ctx, err := NewDataTreeNavigator().GetMatchingNodes(Context{MatchingNodes: l}, &exp)
+		if err != nil || ctx.MatchingNodes.Len() != 1 {
+			return "", false
+		}
+		r = ctx.MatchingNodes.Front().Value.(*CandidateNode)
+	}
+	return r.Value, true
 }
 
 var c13RouteNames = []string{"traverse", "explode-then-traverse", "printer-explode"}
@@ -160,7 +190,12 @@ func VerifC13Resolve() {
 	want, src := c13Ref(q, ka1, ka2, kb1, kb2, e1, e2, mergeKind)
 	route := verifChoice("route", 3)
 	label := c13RouteNames[route] + " " + c13MergeNames[mergeKind] + " " + c13PosNames[pos] + " key=" + src
+	c13ExplicitAlias = verifChoice("explicitValueIsAlias", 2) == 1
+	if c13ExplicitAlias {
+		label += " explicit-alias"
+	}
 	got, ok := c13Read(route, c13Build(ka1, ka2, kb1, kb2, e1, e2, mergeKind, pos), q)
+	c13ExplicitAlias = false
 	verifAssert(ok, "C13/read-error "+label)
 	if !ok {
 		return
@@ -198,24 +233,33 @@ func VerifC13Explode() {
 	ka1, ka2, kb1, kb2, e1, e2 := c13Keys()
 	mergeKind := verifChoice("merge", 4)
 	pos := verifChoice("pos", 3)
+	c13ExplicitAlias = verifChoice("explicitValueIsAlias", 2) == 1
 	label := c13MergeNames[mergeKind] + " " + c13PosNames[pos]
+	if c13ExplicitAlias {
+		label += " explicit-alias"
+	}
 	doc := vDoc(c13Build(ka1, ka2, kb1, kb2, e1, e2, mergeKind, pos))
+	c13ExplicitAlias = false
 	res, err := vEval(vParse("explode(.)"), doc)
 	verifAssert(err == nil && res.Len() == 1, "C13/explode-error "+label)
 	if err != nil || res.Len() != 1 {
 		return
 	}
 	out := res.Front().Value.(*CandidateNode)
+	off := 0
+	if len(out.Content) == 10 {
+		off = 2 // X: &x 6 leads the document in the explicit-alias variant
+	}
 	verifAssert(c13Clean(out), "C13/explode-leaves-alias-merge-or-anchor "+label)
 	// A, B and S keep their values
 	wantA := "{<!!str " + ka1 + ">: <!!int 1>, <!!str " + ka2 + ">: <!!int 2>}"
 	wantB := "{<!!str " + kb1 + ">: <!!int 3>, <!!str " + kb2 + ">: <!!int 4>}"
-	verifAssert(verifEqStr(vDump(out.Content[1]), wantA), "C13/explode-changes-anchored-map "+label)
-	verifAssert(verifEqStr(vDump(out.Content[3]), wantB), "C13/explode-changes-anchored-map "+label)
-	verifObserve("S", vDump(out.Content[7]))
-	verifAssert(verifEqStr(vDump(out.Content[7]), wantA), "C13/explode-alias-value "+label)
+	verifAssert(verifEqStr(vDump(out.Content[off+1]), wantA), "C13/explode-changes-anchored-map "+label)
+	verifAssert(verifEqStr(vDump(out.Content[off+3]), wantB), "C13/explode-changes-anchored-map "+label)
+	verifObserve("S", vDump(out.Content[off+7]))
+	verifAssert(verifEqStr(vDump(out.Content[off+7]), wantA), "C13/explode-alias-value "+label)
 	// H has no duplicate keys
-	h := out.Content[5]
+	h := out.Content[off+5]
 	for i := 0; i+1 < len(h.Content); i += 2 {
 		for j := i + 2; j+1 < len(h.Content); j += 2 {
 			verifAssert(!verifEqStr(h.Content[i].Value, h.Content[j].Value), "C13/explode-duplicate-key "+label)
